@@ -36,12 +36,12 @@ class Env:
         vm.add_model(r'anyhow::Context<.*>>::context::<', lambda vm, m, c, a: ret(m, a[0]))
         def store(kind):
             def h(vm, m, c, a):
-                if kind == 'chunk': idx = slice_items(vm, m, a[1]); vals = deref_val(vm, m, a[2]); m.log('writes', ('chunk', tuple(idx), None, tuple(vals.items)))
+                if kind == 'chunk': idx = slice_items(vm, m, a[1]); vals = deref_val(vm, m, a[2]); m.log('writes', ('chunk', tuple(idx), None, tuple(vals.items), _atag(vm, m, a[0])))
                 elif kind == 'chunk_subset':
                     idx = slice_items(vm, m, a[1]); sub = deref_val(vm, m, a[2]); vals = deref_val(vm, m, a[3])
-                    m.log('writes', ('chunk_subset', tuple(idx), (tuple(sub.f[0].items), tuple(sub.f[1].items)), tuple(vals.items)))
+                    m.log('writes', ('chunk_subset', tuple(idx), (tuple(sub.f[0].items), tuple(sub.f[1].items)), tuple(vals.items), _atag(vm, m, a[0])))
                 else:
-                    sub = deref_val(vm, m, a[1]); vals = deref_val(vm, m, a[2]); m.log('writes', ('array_subset', None, (tuple(sub.f[0].items), tuple(sub.f[1].items)), tuple(vals.items)))
+                    sub = deref_val(vm, m, a[1]); vals = deref_val(vm, m, a[2]); m.log('writes', ('array_subset', None, (tuple(sub.f[0].items), tuple(sub.f[1].items)), tuple(vals.items), _atag(vm, m, a[0])))
                 return ret(m, OK(UNIT))
             return h
         vm.add_model(r'::store_chunk::<', store('chunk')); vm.add_model(r'::store_chunk_subset::<', store('chunk_subset')); vm.add_model(r'::store_array_subset::<', store('array_subset'))
@@ -54,6 +54,11 @@ class Env:
         if t == 'F64':   # a vector statistic of width 2
             es = [self.A.fresh('f%d_%d' % (k, j)) for j in range(2)]; return Enum(en.index('F64'), 'F64', (Seq(es),), 'Value'), es
         raise KeyError(t)
+
+def _atag(vm, m, r):
+    try: v = deref_val(vm, m, r)
+    except Exception: return None
+    return getattr(v, 'tag', None)
 
 def eqv(a, b):
     if isinstance(a, Fl): a = a.v
@@ -68,8 +73,8 @@ def run(rep):
                   'store': 'sync store_zarr_chunk, array rank 2 and 3'}
     rep.assumptions += ['the zarrs Array is the environment: store_chunk(indices, values) writes one whole chunk at chunk-grid position `indices`; store_chunk_subset(indices, subset, values) writes `subset` relative to that chunk; store_array_subset(subset, values) writes at absolute array coordinates; the chunk size of the draw axis equals the buffer size (full_at)',
                         'one chain, one variable; the per-variable buffers are independent']
-    rep.outside += ['zarrs I/O, codecs, the async writer queue and its join on flush, file system, crash consistency of the store itself', 'the async copy of store_zarr_chunk', 'finalisation trimming of event arrays']
-    parts(rep, [lambda: scripts(rep, mir, L, maxlen)])
+    rep.outside += ['zarrs I/O, codecs, file system, crash consistency of the store itself', 'the async copy of store_zarr_chunk and the task that queues a write (queue_write)', 'finalisation trimming of event arrays']
+    parts(rep, [lambda: scripts(rep, mir, L, maxlen), lambda: async_flush(rep, mir, L), lambda: sync_chain_storage(rep, mir, L)])
 
 def scripts(rep, mir, L, maxlen):
     new = mir.method('SampleBuffer', None, 'new'); push = mir.method('SampleBuffer', None, 'push'); reset = mir.method('SampleBuffer', None, 'reset')
@@ -112,7 +117,7 @@ def scripts(rep, mir, L, maxlen):
                         o = vm.run(store, [Ref(m1.alloc(Opaque('array'))), chunk, 0], m1)
                         if len(o) != 1 or o[0][1] != 'ret' or o[0][2].name != 'Ok': bad.setdefault('store.panic', ('store_zarr_chunk fails', (t, c, script + (op,), str(o[0][2])[:200]))); continue
                         m1 = o[0][0]
-                        for (kind, idx, sub, vals) in m1.ghost['writes']:
+                        for (kind, idx, sub, vals, _arr) in m1.ghost['writes']:
                             if kind == 'chunk': off = idx[1] * c; cnt = c; chain = idx[0]
                             elif kind == 'chunk_subset': off = idx[1] * c + sub[0][1]; cnt = sub[1][1]; chain = idx[0] + sub[0][0]
                             else: off = sub[0][1]; cnt = sub[1][1]; chain = sub[0][0]
@@ -148,3 +153,172 @@ def scripts(rep, mir, L, maxlen):
         rep.violated('C15 ' + key, 'samplebuffer.' + key, '%s (value kind, chunk size, script: %s)' % (what, where), model={'where': str(where)})
     if not bad: rep.holds('C15 SampleBuffer + store_zarr_chunk: after every flush/reset the store holds exactly the draws recorded since the last reset at offsets chunk_idx*chunk_size.., full chunks are stored as soon as they fill, flush does not mutate the buffer, total_pushed and bookkeeping exact (%d script prefixes, %d operations)' % (nscripts, nops), time.time() - t0)
     rep.sample({'value kinds': ['U64', 'String', 'F64x2'], 'chunk sizes': [1, 2, 3, 4], 'max script length': maxlen, 'script prefixes': nscripts})
+
+
+def async_flush(rep, mir, L):
+    """the async backend's ZarrAsyncChainStorage::flush, including its `async` block (the state machine rustc generates for it, driven by
+    block_on): when flush returns Ok no queued chunk write is still pending and none of them failed; a failing partial-chunk write or a
+    failing / panicked queued write makes flush return Err.  tokio's Mutex, JoinSet and Handle::block_on are the environment."""
+    from ..vm import Coro
+    fns = [f for n, f in mir.fns.items() if re.search(r'async_impl::<impl at src/storage/zarr/async_impl.rs:\d+:1: \d+:\d+>::flush$', n)]
+    if len(fns) != 1: rep.unknown('C15.B async flush not found in the MIR'); return
+    fn = fns[0].parse(); A = RealAlg(); vm = VM(mir, A); install_misc(vm); vm.loop_bound = 64; vm.max_stmts = 5000000
+    MAXPEND = 2        # each future may answer Pending this many times over the whole run
+    def ev(m): return [e[0] for e in m.ghost['events']]
+    def context(vm, m, c, a):
+        v = a[0]
+        if isinstance(v, Enum) and v.name == 'Ok': return ret(m, v)
+        if isinstance(v, Enum) and v.name == 'Err': return ret(m, ERR(Struct((v.f[0], a[1]), 'Context')))
+        return ret(m, Struct((v, a[1]), 'Context'))
+    vm.add_model(r'anyhow::Context<.*>>::context::<', context)
+    vm.add_model(r'^<Arc<.*> as Deref>::deref$|^<Arc<.*> as Clone>::clone$', lambda vm, m, c, a: ret(m, deref_val(vm, m, a[0]) if c.endswith('clone') else a[0]))
+    vm.add_model(r' as IntoFuture>::into_future$', lambda vm, m, c, a: ret(m, a[0]))
+    vm.add_model(r'^Pin::<&mut .*>::new_unchecked$', lambda vm, m, c, a: ret(m, Struct((a[0],), 'Pin')))
+    def block_on(vm, m, c, a):
+        coro = a[1]
+        if not isinstance(coro, Coro): raise Unmodelled('block_on of %r' % (coro,))
+        poll = mir.coroutine_of(coro.cty); cell = m.alloc(coro); outs = []; work = [(m, 0)]
+        while work:
+            mm, n = work.pop()
+            if n > 3 * MAXPEND + 4: raise VMError('block_on: poll bound exceeded')
+            for (m2, k, v) in vm.exec_fn(mm, poll, [Struct((Ref(cell),), 'Pin'), Ref(m.alloc(Opaque('task context')))]):
+                if k != 'ret': outs.append((m2, k, v)); continue
+                if v.name == 'Ready': outs.append((m2, 'ret', v.f[0]))
+                else: m2.log('events', ('repoll',)); work.append((m2, n + 1))
+        return outs
+    vm.add_model(r'^Handle::block_on::<\{async block@src/storage/zarr/async_impl.rs', block_on)
+    vm.add_model(r'^tokio::sync::Mutex::<JoinSet<.*>>::lock$', lambda vm, m, c, a: ret(m, Struct(('lock future',), 'Fut')))
+    def pending_ok(m, tag): return len([e for e in ev(m) if e == 'pending:' + tag]) < MAXPEND
+    def poll_lock(vm, m, c, a):
+        outs = []; m1 = m.clone(); m1.log('events', ('lock:ready',)); outs.append((m1, 'ret', Enum(0, 'Ready', (Struct((Ref(m.ghost['joinset']),), 'TokioMutexGuard'),), 'Poll')))
+        if pending_ok(m, 'lock'): m2 = m.clone(); m2.log('events', ('pending:lock',)); outs.append((m2, 'ret', Enum(1, 'Pending', (), 'Poll')))
+        return outs
+    vm.add_model(r'^<\{async fn body of tokio::sync::Mutex<.*>::lock\(\)\} as Future>::poll$', poll_lock)
+    vm.add_model(r'^<tokio::sync::MutexGuard<.*> as DerefMut>::deref_mut$', lambda vm, m, c, a: ret(m, deref_val(vm, m, a[0]).f[0]))
+    vm.add_model(r'^JoinSet::<.*>::join_next$', lambda vm, m, c, a: ret(m, Struct(('join_next future',), 'Fut')))
+    def results(m):
+        """outcomes of reaping one queued write: (event, value)"""
+        return [('write:ok', OK(OK(UNIT))), ('write:failed', OK(ERR(Opaque('anyhow(write)')))), ('write:panicked', ERR(Opaque('JoinError')))]
+    def take(m, evname, val, wrap):
+        m2 = m.clone(); m2.ghost['pending'] -= 1; m2.log('events', (evname,)); return (m2, 'ret', wrap(SOME(val)))
+    def poll_join(vm, m, c, a):
+        rdy = lambda x: Enum(0, 'Ready', (x,), 'Poll'); outs = []
+        if m.ghost['pending'] == 0:
+            m2 = m.clone(); m2.log('events', ('join:none',)); return [(m2, 'ret', rdy(NONE()))]
+        for (e, v) in results(m): outs.append(take(m, e, v, rdy))
+        if pending_ok(m, 'join'): m2 = m.clone(); m2.log('events', ('pending:join',)); outs.append((m2, 'ret', Enum(1, 'Pending', (), 'Poll')))
+        return outs
+    vm.add_model(r'^<\{async fn body of JoinSet<.*>::join_next\(\)\} as Future>::poll$', poll_join)
+    def try_join_next(vm, m, c, a):     # non-blocking: a write that has not finished yet is not returned
+        outs = []; m2 = m.clone(); m2.log('events', ('try_join:none',)); outs.append((m2, 'ret', NONE()))
+        if m.ghost['pending'] > 0:
+            for (e, v) in results(m): outs.append(take(m, e, v, lambda x: x))
+        return outs
+    vm.add_model(r'^JoinSet::<.*>::try_join_next$', try_join_next)
+    vm.add_model(r'^JoinSet::<.*>::(len|is_empty)$', lambda vm, m, c, a: ret(m, m.ghost['pending'] if c.endswith('len') else m.ghost['pending'] == 0))
+    def copy_as_chunk(vm, m, c, a):
+        b = deref_val(vm, m, a[0]); return ret(m, SOME(Struct((b.f[0],), 'Chunk')) if b.f[1] else NONE())
+    vm.add_model(r'^SampleBuffer::copy_as_chunk$', copy_as_chunk)     # the real function is decided by the script queries above
+    def store_sync(vm, m, c, a):
+        outs = []
+        for ok in (True, False):
+            arr = deref_val(vm, m, a[1]); m2 = m.clone(); m2.log('events', ('partial:%s:%s' % (a[2].f[0], 'ok' if ok else 'failed'),)); m2.log('events', ('array:%s->%s' % (a[2].f[0], getattr(arr, 'tag', arr)),)); outs.append((m2, 'ret', OK(UNIT) if ok else ERR(Opaque('anyhow(partial write)'))))
+        return outs
+    vm.add_model(r'^store_zarr_chunk_sync$', store_sync)
+    t0 = time.time(); bad = {}; npaths = 0; seen = set()
+    def buf(tag, nonempty): return Struct((tag, nonempty), 'SampleBufferTok')
+    def hmap(pairs):
+        from ..intrinsics import hm_new
+        return hm_new(vm, [Struct((Str(k), v)) for k, v in pairs])
+    for pending in (0, 1, 2):
+        for warm in (True, False):
+            for parity in (0, 1):
+                vm.hm_parity = parity
+                m = Machine(); m.ghost['events'] = []; m.ghost['pending'] = pending; m.ghost['joinset'] = m.alloc(Opaque('JoinSet'))
+                AF = 'async_impl'
+                arrays = L.make('ArrayCollection', {f: (hmap([('a', Opaque(f + '/a')), ('b', Opaque(f + '/b'))]) if f.endswith('_arrays') else Opaque(f)) for f in L.fields('ArrayCollection', file=AF)}, file=AF)
+                st = L.make('ZarrAsyncChainStorage', {'draw_buffers': hmap([('a', buf('draw a', True)), ('b', buf('draw b', False))]), 'stats_buffers': hmap([('a', buf('stat a', True))]), 'arrays': arrays, 'chain': 0,
+                                                      'last_sample_was_warmup': warm, 'event_dim_of_stat': Opaque('ed'), 'warmup_event_counts': Opaque('wc'), 'pending_writes': Opaque('pending arc'), 'rt_handle': Opaque('handle'), 'max_queued_writes': 4})
+                outs = list(vm.exec_fn(m, fn, [Ref(m.alloc(st))])); npaths += len(outs)
+                for (m2, k, v) in outs:
+                    e = ev(m2); fail = [x for x in e if x.endswith(':failed') or x == 'write:panicked']
+                    if k == 'panic': bad.setdefault('async.flush.panic', 'async flush panics: %s (events %s)' % (str(v)[:100], e[-5:])); continue
+                    seen.add((v.name, bool(fail), m2.ghost['pending'] == 0))
+                    if v.name == 'Ok':
+                        if m2.ghost['pending'] > 0: bad.setdefault('async.flush.pending', 'flush() returns Ok while %d queued chunk write(s) have not completed: a reader (or a crash) right after flush misses those chunks (events %s)' % (m2.ghost['pending'], e[-6:]))
+                        if fail: bad.setdefault('async.flush.swallowed', 'flush() returns Ok although a write failed: %s' % fail)
+                        want = {'partial:draw a:ok', 'partial:stat a:ok'}
+                        pre = 'warmup' if warm else 'sample'
+                        if 'array:draw a->%s_draw_arrays/a' % pre not in e or 'array:stat a->%s_param_arrays/a' % pre not in e: bad.setdefault('async.flush.array', 'flush() writes a partial chunk into the wrong array (warm-up = %s; events %s)' % (warm, [x for x in e if x.startswith('array:')]))
+                        if not want <= set(e) or any(x.startswith('partial:draw b') for x in e): bad.setdefault('async.flush.partial', 'flush() does not write exactly the non-empty buffers as partial chunks (events %s)' % [x for x in e if x.startswith('partial')])
+                    elif not fail: bad.setdefault('async.flush.spurious_err', 'flush() returns Err although every write succeeded (events %s)' % e[-6:])
+    rep.paths += npaths; rep.absorb_vm(vm)
+    for key, what in bad.items(): rep.violated('C15.B ' + key, key, what, model={})
+    if not bad: rep.holds('C15.B ZarrAsyncChainStorage::flush with its async block (0..2 queued writes, every completion order/outcome, <= %d Pending answers per future, warm-up and sampling): Ok only when every non-empty buffer was written as a partial chunk into the array of its own name and phase, no queued write is left pending and none failed; otherwise Err (%d paths)' % (MAXPEND, npaths), time.time() - t0)
+    rep.cover('C15.B flush: Ok with empty queue and Err after a failed write both reachable', ('Ok', False, True) in seen and any(s[0] == 'Err' and s[1] for s in seen))
+
+
+def sync_chain_storage(rep, mir, L):
+    """the sync backend end to end: the real ZarrChainStorage::{record_sample, push_param, push_draw, flush, finalize} with real SampleBuffers and
+    the real store_zarr_chunk over the write-log Array model, one draw variable and one statistic (scalars), flush after every draw:
+    after every flush - and after finalize - each of the four arrays holds exactly the draws of its phase recorded so far, in order."""
+    SF = 'zarr/sync_impl'
+    rec = mir.method('ZarrChainStorage', 'ChainStorage', 'record_sample', file=SF); flush = mir.method('ZarrChainStorage', 'ChainStorage', 'flush', file=SF); fin = mir.method('ZarrChainStorage', 'ChainStorage', 'finalize', file=SF)
+    new = mir.method('SampleBuffer', None, 'new'); bad = {}; nruns = 0; nflush = 0; t0 = time.time()
+    NMAX = 4 if rep.tier == 'quick' else 6
+    from ..intrinsics import hm_new
+    for c in (1, 2, 3):
+        for N in range(1, NMAX + 1):
+            for T in range(0, N + 1):
+                for parity in (0, 1):
+                    E = Env(mir, L); vm = E.vm; vm.hm_parity = parity; vm.loop_bound = 200
+                    vm.add_model(r'^<Arc<.*> as Deref>::deref$', lambda vm, m, c, a: ret(m, a[0]))
+                    vm.add_model(r'^<\[&str; 2\]>::contains$|^core::slice::<impl \[&str\]>::contains$', lambda vm, m, c, a: ret(m, deref_val(vm, m, a[1]).s in ('draw', 'chain')))
+                    m = Machine(); m.ghost['writes'] = []; m.ghost['rank'] = 2; m.ghost['shape_cell'] = m.alloc(Seq([1, 1000]))
+                    def mkbuf(t):
+                        o = vm.run(new, [E.item(t), c], m); return o[0][2]
+                    hm = lambda pairs: hm_new(vm, [Struct((Str(k), v)) for k, v in pairs])
+                    arrays = L.make('ArrayCollection', {f: hm([(nm, Opaque('%s/%s' % (f, nm))) for nm in (('x',) if 'draw' in f else ('s',))]) for f in L.fields('ArrayCollection', file=SF)}, file=SF)
+                    st = L.make('ZarrChainStorage', {'draw_buffers': hm([('x', mkbuf('U64'))]), 'stats_buffers': hm([('s', mkbuf('String'))]), 'arrays': arrays, 'chain': 0, 'last_sample_was_warmup': True,
+                                                     'event_dim_of_stat': hm([]), 'warmup_event_counts': hm([])}, file=SF)
+                    sc = m.alloc(st); store = {}; xs = []; ss = []; ok = True; nruns += 1
+                    def apply_writes(m):
+                        for (kind, idx, sub, vals, arr) in m.ghost['writes']:
+                            if kind == 'chunk': off = idx[1] * c; cnt = c; chain = idx[0]
+                            elif kind == 'chunk_subset': off = idx[1] * c + sub[0][1]; cnt = sub[1][1]; chain = idx[0] + sub[0][0]
+                            else: off = sub[0][1]; cnt = sub[1][1]; chain = sub[0][0]
+                            if chain != 0 or len(vals) != cnt: bad.setdefault('sync.store.extent', ('write extent / chain row wrong', (c, N, T)))
+                            for j in range(cnt): store.setdefault(arr, {})[off + j] = vals[j]
+                        m.ghost['writes'] = []
+                    def check(when, d):
+                        warm = min(d + 1, T)
+                        for arr, vals in (('warmup_draw_arrays/x', xs[:warm]), ('sample_draw_arrays/x', xs[T:d + 1] if d + 1 > T else []), ('warmup_param_arrays/s', ss[:warm]), ('sample_param_arrays/s', ss[T:d + 1] if d + 1 > T else [])):
+                            got = store.get(arr, {})
+                            for j, v in enumerate(vals):
+                                if j not in got or not eqv(got[j], v):
+                                    bad.setdefault('sync.flush.content', ('%s draw %d (chunk size %d, %d tuning draws of %d): array %s does not hold recorded value %d (%s)' % (when, d, c, T, N, arr, j, 'missing' if j not in got else 'wrong value'), (c, N, T, parity))); return
+                            if any(j >= len(vals) and not False for j in got if j >= len(vals)):
+                                pass    # slots beyond the recorded draws may hold anything written by a partial chunk of the same phase: not observable for a reader that trusts the counts
+                    for d in range(N):
+                        xv = z3.Int('x_%d' % d); sv = Str('s%d' % d); xs.append(xv); ss.append(sv); en = vm.enums['Value']
+                        stats = Seq([Struct((Str('s'), SOME(Enum(en.index('ScalarString'), 'ScalarString', (sv,), 'Value')))), Struct((Str('draw'), SOME(Enum(en.index('ScalarU64'), 'ScalarU64', (d,), 'Value')))), Struct((Str('absent'), NONE()))])
+                        draws = Seq([Struct((Str('x'), SOME(Enum(en.index('ScalarU64'), 'ScalarU64', (xv,), 'Value'))))])
+                        info = L.make('Progress', {'draw': d, 'chain': 0, 'diverging': False, 'tuning': d < T, 'step_size': E.A.fresh('eps'), 'num_steps': 1})
+                        o = vm.run(rec, [Ref(sc), Ref(m.alloc(Opaque('settings'))), stats, draws, Ref(m.alloc(info))], m)
+                        if len(o) != 1 or o[0][1] != 'ret' or o[0][2].name != 'Ok': bad.setdefault('sync.record', ('record_sample fails / forks: %s' % str([(k, str(v)[:120]) for (_, k, v) in o][:2]), (c, N, T))); ok = False; break
+                        m = o[0][0]; apply_writes(m)
+                        before = m.mem[sc]
+                        o = vm.run(flush, [Ref(sc)], m)
+                        if len(o) != 1 or o[0][1] != 'ret' or o[0][2].name != 'Ok': bad.setdefault('sync.flush', ('flush fails / forks: %s' % str([(k, str(v)[:120]) for (_, k, v) in o][:2]), (c, N, T))); ok = False; break
+                        m = o[0][0]; apply_writes(m); nflush += 1
+                        if not vm._same(before, m.mem[sc]): bad.setdefault('sync.flush.mutates', ('flush changes the chain storage', (c, N, T)))
+                        check('after flush following', d)
+                    if not ok: continue
+                    o = vm.run(fin, [m.mem[sc]], m)
+                    if len(o) != 1 or o[0][1] != 'ret' or o[0][2].name != 'Ok': bad.setdefault('sync.finalize', ('finalize fails / forks: %s' % str([(k, str(v)[:120]) for (_, k, v) in o][:2]), (c, N, T))); continue
+                    apply_writes(o[0][0]); check('after finalize following', N - 1)
+                    rep.absorb_vm(vm)
+    rep.paths += nruns
+    for key, (what, where) in bad.items(): rep.violated('C15.C ' + key, key, '%s %s' % (what, where), model={'where': str(where)})
+    if not bad: rep.holds('C15.C sync ZarrChainStorage end to end (chunk size 1-3, 1-%d draws, every warm-up/sampling split, flush after every draw, finalize): every array holds exactly the draws of its phase recorded so far, in order; flush does not change the storage (%d runs, %d flushes)' % (NMAX, nruns, nflush), time.time() - t0)
+    rep.cover('C15.C flushes executed', nflush > 0)
